@@ -13,10 +13,33 @@ SKIP_TYPES = (type, types.ModuleType, types.FunctionType,
               types.MethodDescriptorType)
 
 
-def measure(root, extra_skip=()):
+def module_state(prefix='socketio'):
+    """Module-level mutable containers of the package (registries such as
+    the set that keeps references to background tasks): state the servers of
+    the process share, reachable from every server through its methods."""
+    import sys
+    out = []
+    for name, mod in sorted(sys.modules.items()):
+        if mod is None or not (name == prefix or
+                               name.startswith(prefix + '.')):
+            continue
+        for attr, v in sorted(vars(mod).items()):
+            if attr.startswith('__'):
+                continue
+            if isinstance(v, (dict, list, set, collections.deque)):
+                out.append(v)
+    return out
+
+
+def measure(root, extra_skip=(), with_module_state=False):
     """Returns (count, Counter by type name)."""
     seen = {id(root)}
     stack = [root]
+    if with_module_state:
+        for v in module_state():
+            if id(v) not in seen:
+                seen.add(id(v))
+                stack.append(v)
     by_type = collections.Counter()
     skip_ids = {id(x) for x in extra_skip}
     while stack:
